@@ -400,11 +400,22 @@ func TestPropExtraKeysDoNotChangeKind(t *testing.T) {
 			if merr != nil {
 				t.Fatalf("harness: %v", merr)
 			}
-			wk, ws := expected(func(k string) bool { return has[k] }, typ, typ != "<absent>")
-			if err := checkOne(string(text), wk, ws); err != nil {
-				t.Fatalf("%v\ndocument:\n%s", err, text)
+			// (this path writes the text itself; what doc.Render's self-check does for the other rows is done
+			// here in small: the text must read back as one step mapping holding every pair that was written -
+			// the YAML library's emitter mangles a few strings, e.g. block scalars that begin with white space)
+			var back yaml.Node
+			readable := yaml.Unmarshal(text, &back) == nil && len(back.Content) == 1 && len(back.Content[0].Content) == 2 &&
+				back.Content[0].Content[1].Kind == yaml.SequenceNode && len(back.Content[0].Content[1].Content) == 1 &&
+				len(back.Content[0].Content[1].Content[0].Content) == len(flat.Content)
+			if !readable {
+				recExtra.Excluded("render-fault (twin-key row written directly)")
+			} else {
+				wk, ws := expected(func(k string) bool { return has[k] }, typ, typ != "<absent>")
+				if err := checkOne(string(text), wk, ws); err != nil {
+					t.Fatalf("%v\ndocument:\n%s", err, text)
+				}
+				recExtra.Class("extra-keys-that-differ-only-in-being-quoted")
 			}
-			recExtra.Class("extra-keys-that-differ-only-in-being-quoted")
 		}
 		d, err := doc.Render(root, 2, 20000)
 		if err != nil {
